@@ -117,6 +117,7 @@ func init() {
 			ruleOptionScope(c)
 			ruleProtoWireTypes(c)
 			ruleRepeatedReader(c)
+			ruleGrowth(c)
 			ruleProtoGrammar(c)
 		},
 	})
